@@ -249,7 +249,8 @@ impl Clone for NVal {
     }
 }
 
-/// Hashers: 0 identity, 1 constant (every key collides), 2 two low bits, 3 multiplicative, 4 SipHash (std).
+/// Hashers: 0 identity, 1 constant (every key collides), 2 two low bits, 3 multiplicative, 4 SipHash (std), 5 multiplicative with a
+/// specialised hash_one that disagrees with the streaming hash.
 #[derive(Clone, Debug)]
 pub struct BH(pub u8);
 pub struct H(u8, u64, std::collections::hash_map::DefaultHasher);
@@ -259,7 +260,7 @@ impl Hasher for H {
             0 => self.1,
             1 => 0,
             2 => self.1 & 3,
-            3 => self.1.wrapping_mul(0x9E3779B97F4A7C15),
+            3 | 5 => self.1.wrapping_mul(0x9E3779B97F4A7C15),
             _ => self.2.finish(),
         }
     }
@@ -270,6 +271,12 @@ impl BuildHasher for BH {
     type Hasher = H;
     #[allow(deprecated)]
     fn build_hasher(&self) -> H { H(self.0, 0, std::collections::hash_map::DefaultHasher::new()) }
+    /// kind 5: a builder whose one-shot `hash_one` is specialised and does NOT agree with hashing through `build_hasher`
+    /// (as ahash's RandomState with its `specialize` feature): a table must use one of the two ways consistently
+    fn hash_one<T: Hash>(&self, x: T) -> u64 where Self: Sized {
+        let mut h = self.build_hasher(); x.hash(&mut h); let v = h.finish();
+        if self.0 == 5 { !v } else { v }
+    }
 }
 
 /// xorshift64* PRNG; every random choice of the harness derives from one state.
